@@ -7,7 +7,7 @@ CONSTANTS
   Kv <- None
   Changes = {c1, c2}
   MaxPend = 2
-  Dev <- None
+  Dev <- DevRemoved
   Budget <- Bq
 SYMMETRY Sym
 INVARIANT TypeOK
